@@ -687,6 +687,26 @@ impl<'a> Builder<'a> {
         v
     }
 
+    fn tunnel_call(&mut self) -> Option<Stmt> {
+        if !self.cfg.tunnels || self.in_function || self.meta.tunnel_knots.is_empty() {
+            return None;
+        }
+        // tunnels may only call later tunnels (no recursion)
+        let cands: Vec<KnotPlan> = self
+            .plans
+            .iter()
+            .enumerate()
+            .filter(|(i, p)| p.kind == KnotKind::Tunnel && (self.plans[self.cur_knot].kind != KnotKind::Tunnel || *i > self.cur_knot))
+            .map(|(_, p)| p.clone())
+            .collect();
+        if cands.is_empty() {
+            return None;
+        }
+        let t = self.rng.pick(&cands).clone();
+        let args = t.params.iter().map(|_| self.int_expr(1)).collect();
+        Some(Stmt::Tunnel(t.name, args))
+    }
+
     /// a run of content / logic statements without choices
     fn content_run(&mut self, externals: &[External], n: usize) -> Vec<Stmt> {
         let mut v = Vec::new();
@@ -936,6 +956,15 @@ impl<'a> Builder<'a> {
             let mut body = self.content_run(externals, nbody);
             if depth < cfg.nested_depth && self.rng.chance(1, 4) {
                 body.extend(self.weave(flow_idx, depth + 1, externals, loops, self_name));
+                // what follows the inner gather belongs to it; its last statement may be a tunnel call, whose
+                // return must still find the way to the outer gather
+                if cfg.layout_variants && self.rng.chance(1, 2) {
+                    let n = self.rng.below(2);
+                    body.extend(self.content_run(externals, n));
+                    if let Some(t) = self.tunnel_call() {
+                        body.push(t);
+                    }
+                }
             }
             // how the body ends: fall through to the gather, go forward, loop back, end
             let mut divert = None;
